@@ -7,8 +7,10 @@
    consequence of the coherence invariant (Proofs.step_coh).  So a history that fails (A) at
    such a read either disagrees with the model or is an instance of F7: the clause cannot
    alarm for another reason, and it is not an oracle of its own.
-   (QueryRowIndex reads are judged by the same clause through the observed store contents;
-   that part is not proved here - see notes/C06.md, Limits.) *)
+   QueryRowIndex reads are judged by the same clause through the OBSERVED store contents (the
+   index entry found before the read names the primary key whose invalidation may be
+   outstanding): second half of this file, under the explicit assumption that an observed
+   dump lists every key once (a Redis keyspace). *)
 From Coq Require Import List ZArith Bool NArith Lia.
 From GZ Require Import Lib.CheckLib C06.Model C06.Proofs C06.ProofsB C06.Check.
 Import ListNotations.
@@ -163,4 +165,186 @@ Lemma agreed_reads_coherent_lemma (w : wcase) :
 Proof.
   intros ND A. eapply agreed_reads_coherent_from; [|exact A].
   split; [reflexivity|]. split; [reflexivity|]. intros _. split; [exact ND | apply init_coh].
+Qed.
+
+(* ------------------------------------------------------------------ QueryRowIndex reads *)
+Definition dkey (e : dump_entry) : key := fst (fst e).
+
+(* every observed dump lists a key once (a keyspace) *)
+Definition dumps_unique (obs : list opobs) : Prop := Forall (fun ob => NoDup (map dkey (o_dump ob))) obs.
+
+Lemma cval_eqb_eq a b : cval_eqb a b = true -> a = b.
+Proof.
+  destruct a, b; cbn; try discriminate; auto.
+  - intro H. apply andb_true_iff in H. destruct H as [H1 H2]. apply Z.eqb_eq in H1. apply Z.eqb_eq in H2. subst. reflexivity.
+  - intro H. apply Z.eqb_eq in H. subst. reflexivity.
+Qed.
+
+Lemma de_eqb_eq a b : de_eqb a b = true -> a = b.
+Proof.
+  destruct a as [[k v] t], b as [[k' v'] t']. cbn. intro H.
+  apply andb_true_iff in H. destruct H as [H H3]. apply andb_true_iff in H. destruct H as [H1 H2].
+  apply key_eqb_eq in H1. apply cval_eqb_eq in H2. apply Z.eqb_eq in H3. subst. reflexivity.
+Qed.
+
+Lemma list_eqb_eq {A} (eqb : A -> A -> bool) (E : forall a b, eqb a b = true -> a = b) :
+  forall l1 l2, list_eqb eqb l1 l2 = true -> l1 = l2.
+Proof.
+  induction l1 as [|x l1 IH]; intros [|y l2]; cbn; try discriminate; auto.
+  intro H. apply andb_true_iff in H. destruct H as [H1 H2]. apply E in H1. apply IH in H2. subst. reflexivity.
+Qed.
+
+Lemma insert_de_In x y l : In x (insert_de y l) <-> x = y \/ In x l.
+Proof.
+  induction l as [|z l IH]; cbn.
+  - intuition.
+  - destruct (key_leb (fst (fst y)) (fst (fst z))); cbn; [intuition|]. rewrite IH. intuition.
+Qed.
+
+Lemma sort_dump_In x l : In x (sort_dump l) <-> In x l.
+Proof.
+  induction l as [|y l IH]; cbn; [tauto|]. unfold sort_dump in *. cbn. rewrite insert_de_In, IH. intuition.
+Qed.
+
+Lemma dump_eqb_In a b x : dump_eqb a b = true -> In x a -> In x b.
+Proof.
+  unfold dump_eqb. intros H Hi. apply (list_eqb_eq de_eqb de_eqb_eq) in H.
+  apply sort_dump_In. rewrite <- H. apply sort_dump_In. exact Hi.
+Qed.
+
+Lemma dget_unique l k v t : NoDup (map dkey l) -> In (k, v, t) l -> dget l k = Some (v, t).
+Proof.
+  induction l as [|[[k' v'] t'] l IH]; cbn; [contradiction|].
+  intros ND [H|H].
+  - inversion H. subst. rewrite key_eqb_refl. reflexivity.
+  - inversion ND as [|? ? Hn ND']. subst.
+    destruct (key_eqb k k') eqn:E.
+    + apply key_eqb_eq in E. subst. exfalso. apply Hn.
+      change k' with (dkey (k', v, t)). apply in_map. exact H.
+    + apply IH; auto.
+Qed.
+
+Lemma find_In k d e : find k d = Some e -> In (k, e) d.
+Proof.
+  induction d as [|[k' e'] d IH]; cbn; [discriminate|].
+  destruct (key_eqb k k') eqn:E.
+  - intro H. inversion H. subst. apply key_eqb_eq in E. subst. auto.
+  - intro H. right. apply IH. exact H.
+Qed.
+
+(* a live entry of the model's store is listed by its dump *)
+Lemma lookup_in_dump s k e :
+  lookup (clock s) (cache s) k = Some e ->
+  exists t, In (k, eval e, t) (dump s).
+Proof.
+  intro H. apply lookup_some in H. destruct H as [Hf Hl]. apply find_In in Hf.
+  exists (match eexp e with Some x => x - clock s | None => 0 end).
+  unfold dump. apply in_flat_map. exists (k, e). split; [exact Hf|]. rewrite Hl. left. reflexivity.
+Qed.
+
+Lemma next_prev c r o ob : r_prev (next c r o ob) = o_dump ob.
+Proof. unfold next. destruct o; try destruct w; destruct (o_ret ob); reflexivity. Qed.
+
+(* the judgement's state follows the model's, store contents included *)
+Definition linked2 (r : rstate) (s : state) : Prop :=
+  linked r s /\ NoDup (map dkey (r_prev r)) /\ (forall x, In x (dump s) -> In x (r_prev r)).
+
+Lemma next_linked2 c r s o ob :
+  linked2 r s -> ret_eqb (oret (snd (step c s o))) (o_ret ob) = true ->
+  dump_eqb (dump (fst (step c s o))) (o_dump ob) = true -> NoDup (map dkey (o_dump ob)) ->
+  linked2 (next c r o ob) (fst (step c s o)).
+Proof.
+  intros (L & _ & _) Hr Hd Hu. split; [apply next_linked; auto|]. rewrite next_prev. split; [exact Hu|].
+  intros x Hx. eapply dump_eqb_In; eauto.
+Qed.
+
+Definition index_read (o : op) : bool :=
+  match o with OQri _ _ | OQriMid _ _ _ => true | _ => false end.
+
+Lemma db_by_u_none_intro u t : wf_db t -> (forall p v, db_get p t <> Some (u, v)) -> db_by_u u t = None.
+Proof.
+  intros W H. destruct (db_by_u u t) as [[p [u' v]]|] eqn:E; [|reflexivity].
+  destruct (db_by_u_some u t p u' v W E) as [-> G]. exfalso. eapply H. exact G.
+Qed.
+
+Lemma coherent_index_sound c r s o ob :
+  linked2 r s -> index_read o = true ->
+  ret_eqb (oret (snd (step c s o))) (o_ret ob) = true ->
+  coherent true r (norm o) ob = true.
+Proof.
+  intros ((Hm & Hd & Hc) & Hu & Hp) Hi Hr. apply ret_eqb_eq in Hr. unfold coherent.
+  destruct (r_disc r) eqn:D; [|reflexivity]. cbn [negb]. destruct (Hc eq_refl) as [W C]. rewrite Hm, Hd.
+  assert (A : forall u,
+            (dirty s (KU u) || match dget (r_prev r) (KU u) with
+                               | Some (CPk p, _) => dirty s (KP p) | _ => false end) = false ->
+            dirty s (KU u) = false /\
+            (forall e p, lookup (clock s) (cache s) (KU u) = Some e -> eval e = CPk p -> dirty s (KP p) = false)).
+  { intros u H. apply orb_false_iff in H. destruct H as [H1 H2]. split; [exact H1|].
+    intros e p L E. destruct (lookup_in_dump s (KU u) e L) as [t Ht]. rewrite E in Ht.
+    apply Hp in Ht. rewrite (dget_unique _ _ _ _ Hu Ht) in H2. exact H2. }
+  assert (B : forall u (m : obs), index_claim s u m -> oret m = o_ret ob ->
+            match o_ret ob with
+            | RRow p u' v => (u' =? u) && row_is (db s) p u v
+            | RNf => match db_by_u u (db s) with None => true | Some _ => false end
+            | _ => true
+            end = true).
+  { intros u m [S1 S2] E. rewrite <- E. destruct (oret m) eqn:R; auto.
+    - destruct (S1 _ _ _ eq_refl) as [-> G]. rewrite Z.eqb_refl. apply row_is_intro. exact G.
+    - rewrite (db_by_u_none_intro u (db s) W (S2 eq_refl)). reflexivity. }
+  destruct o; try discriminate; cbn [norm step] in *.
+  - destruct (dirty s (KU u) || _) eqn:Dy; [reflexivity|]. cbn [andb].
+    destruct (A u Dy) as [A1 A2]. apply (B u (snd (query_index c s u t))); auto.
+    apply query_index_sound; auto.
+  - destruct (dirty s (KU u) || _) eqn:Dy; [reflexivity|]. cbn [andb].
+    destruct (A u Dy) as [A1 A2]. apply (B u (snd (query_index_mid c s u t n))); auto.
+    apply query_index_mid_sound; auto.
+Qed.
+
+(* clause (A) at EVERY read of a whole observed history *)
+Fixpoint coherent_from (c1 c2 : config) (insts : list bool) (r : rstate) (ops : list op)
+         (obs : list opobs) : bool :=
+  match ops, obs with
+  | o :: ops', ob :: obs' =>
+    let c := pick c1 c2 insts in
+    coherent true r (norm o) ob && coherent_from c1 c2 (tl insts) (next c r o ob) ops' obs'
+  | _, _ => true
+  end.
+
+Lemma coherent_other r o ob : primary_read o = false -> index_read o = false -> coherent true r (norm o) ob = true.
+Proof.
+  intros P I. unfold coherent. destruct (negb (r_disc r)); [reflexivity|].
+  destruct o; try discriminate; reflexivity.
+Qed.
+
+Lemma agreed_coherent_from str c1 c2 : forall ops obs insts r s,
+  linked2 r s -> dumps_unique obs -> agrees_from str c1 c2 insts s ops obs = true ->
+  coherent_from c1 c2 insts r ops obs = true.
+Proof.
+  induction ops as [|o ops IH]; intros [|ob obs] insts r s L U A; try reflexivity.
+  cbn [agrees_from] in A. cbn [coherent_from].
+  destruct (step (pick c1 c2 insts) s o) as [s' m] eqn:E.
+  apply andb_true_iff in A. destruct A as [A A6]. apply andb_true_iff in A. destruct A as [A A5].
+  apply andb_true_iff in A. destruct A as [A A4]. apply andb_true_iff in A. destruct A as [A A3].
+  apply andb_true_iff in A. destruct A as [A1 A2].
+  assert (Hr : ret_eqb (oret (snd (step (pick c1 c2 insts) s o))) (o_ret ob) = true) by (rewrite E; exact A1).
+  inversion U as [|? ? U1 U2]. subst.
+  apply andb_true_iff. split.
+  - destruct (primary_read o) eqn:P; [eapply coherent_primary_sound; eauto; apply L|].
+    destruct (index_read o) eqn:I; [eapply coherent_index_sound; eauto|].
+    apply coherent_other; auto.
+  - apply (IH obs (tl insts) _ s'); auto.
+    replace s' with (fst (step (pick c1 c2 insts) s o)) by (rewrite E; reflexivity).
+    apply next_linked2; auto. rewrite E. exact A5.
+Qed.
+
+Lemma agreed_coherent_lemma (w : wcase) :
+  NoDup (map fst (c_rows w)) -> dumps_unique (c_obs w) -> agrees1 w = true ->
+  coherent_from (c_cfg w) (c_cfg2 w) (c_inst w)
+                (mkR (c_rows w) false [] [] true [] (init (c_rows w))) (c_ops w) (c_obs w) = true.
+Proof.
+  intros ND U A. eapply agreed_coherent_from; [|exact U|exact A].
+  split; [|split].
+  - split; [reflexivity|]. split; [reflexivity|]. intros _. split; [exact ND | apply init_coh].
+  - constructor.
+  - intros x H. exact H.
 Qed.
